@@ -148,7 +148,7 @@ ITEMS = location_types() + budget_types() + error_types() + [
                 match r { Ok(_) => r == vis_unit(visitor) && (rest0.len() == 0 || rest0[0] is MapEnd || rest0[0] is SeqEnd || unit_scalar(rest0[0])),
                           Err(_) => true } })''')],
         proofs=[dict(at='start', ghost=True, text='let ghost rest0 = self.ev.rest();'),
-                dict(before_re=r'visitor\.visit_unit\(\)\s*\}\s*// End of a container|visitor\.visit_unit\(\)\s*\}\s*Some\(Ev::MapEnd', label='C05:a_null_like_scalar_is_consumed', text='assert(this.ev.rest() == rest0.skip(1));')],
+                dict(after_re=r'let _ = this\.ev\.next\(\)\?;', label='C05:a_null_like_scalar_is_consumed', text='assert(this.ev.rest() == rest0.skip(1));')],
         canaries=['C05:unit_accepts_only_absence_or_a_plain_null_like_scalar']),
     # ---- streaming sequence access (C05: a sequence ends exactly at its SeqEnd; elements are handed on in place) ----
     dict(src=D, path='impl de::Deserializer for YamlDeserializer/fn deserialize_seq/' + 'struct SA'),
